@@ -23,7 +23,7 @@ from dimod import (BinaryQuadraticModel as BQM, QuadraticModel as QM, Constraine
 
 from harness.common import lab, rat, run_driver
 from harness.props.energy_common import (LABELS, Recipe, q8, F, fl, poly_value, rats, labs, rows_tok, adj_tok, qmb_tokens, parse_qmb,
-                                         qmb_canon, model_canon, domain, perm_of, exc_class, gen_bqm, gen_qm)
+                                         qmb_canon, model_canon, domain, perm_of, exc_class, gen_bqm, gen_qm, edit_history)
 from harness.props.c01 import Batch
 
 HALF = Fraction(1, 2)
@@ -107,6 +107,10 @@ def fits(x, dtype):
     return abs(x.numerator) < 2 ** 40 and x.denominator <= 2 ** 40
 
 
+def sorted_pair(e):
+    return tuple(sorted(e, key=repr))
+
+
 def all_samples(labels, vt):
     dom = domain(vt)
     for vals in itertools.product(dom, repeat=len(labels)):
@@ -119,10 +123,15 @@ def case_bqm_convert(ctx, r, B):
     R = Recipe()
     dtype = r.choice(['np.float64', 'np.float32', 'object'])
     labels, vt = gen_bqm(r, R, dtype=dtype, nmax=5)
+    convert_and_check(ctx, r, B, R, labels, vt, dtype)
+
+
+def convert_and_check(ctx, r, B, R, labels, vt, dtype, after=''):
+    """`m` of the recipe (freshly built, or reached through a history: `after` names it) is converted to the other vartype"""
     m = R['m']
     other = 'BINARY' if vt == 'SPIN' else 'SPIN'
     site = f'BQM{"[object]" if dtype == "object" else "[float32]" if dtype == "np.float32" else ""}.change_vartype'
-    ic = f'{vt}->{other}' + ('' if labels else ' (no variables)') + ('' if m.num_interactions else ' (no interactions)' if labels else '')
+    ic = f'{vt}->{other}' + ('' if labels else ' (no variables)') + ('' if m.num_interactions else ' (no interactions)' if labels else '') + after
     inplace = r.random() < .5
     P = GP.of_model(m)
     sub = TO_BINARY if other == 'BINARY' else TO_SPIN       # old variable in terms of the new one
@@ -182,6 +191,39 @@ def case_bqm_convert(ctx, r, B):
         exp_c = model_canon(nmod, order)
         B.add(line, '', site, ic, 'BQM::change_vartype vs model', detail=dict(script=R.lines[4:]),
               on_mismatch=lambda g, exp_c=exp_c, other=other: g.split(' ')[0] == other and qmb_canon(*parse_qmb(g.split(' ')[1])) == exp_c)
+
+
+# ------------------------------------------------------------------------------------------ A'. conversion of a model reached through a history
+
+def raw_order(m):
+    """dict back-end only: the insertion order of `_adj` and of every neighbourhood dict (what `pyBQM.change_vartype` iterates over)"""
+    return ';'.join(f'{lab(u)}>' + ','.join(lab(v) for v in nu) for u, nu in m.data._adj.items()) or '-'
+
+
+def case_history_convert(ctx, r, B):
+    """a BQM of any back-end is edited (relabel, remove / re-add, contract, fix, update, flip, scale, copies, in-place
+    vartype changes …) and *then* converted: the conversion has to be exact on every state the public API can reach, not
+    only on freshly built models (the dict back-end's loops depend on the insertion order the history leaves behind)"""
+    R = Recipe()
+    dtype = r.choice(['np.float64', 'np.float32', 'object', 'object'])
+    labels, vt = gen_bqm(r, R, dtype=dtype, nmax=5)
+    if len(labels) < 2 and r.random() < .8:
+        return
+    kinds = edit_history(ctx, r, R, dtype, tag='history op before conversion')
+    if kinds is None:
+        return
+    m = R['m']
+    labels = list(m.variables)
+    vt = m.vartype.name
+    if len(labels) > 5 or not kinds:
+        return
+    P = GP.of_model(m)
+    if not all(fits(x * 16, dtype) for x in P.t.values()):
+        ctx.tick('cut_for_precision')
+        return
+    rel = kinds & {'relabel', 'relabel_copy', 'swap', 'as_integers'}
+    after = ' after an edit history' + (' with relabelling' if rel else '')
+    convert_and_check(ctx, r, B, R, labels, vt, dtype, after=after)
 
 
 # ------------------------------------------------------------------------------------------ B. views: histories
@@ -276,7 +318,43 @@ def case_view_history(ctx, r, B):
         else:
             o = r.choice(['m', 'm', 'hv', 'hv', 'm.spin', 'm.binary'])
             kind = r.choice(['addlin', 'addlin', 'addquad', 'addquad', 'addquad', 'setlin', 'setquad', 'addvar', 'setoff', 'rmint', 'rmvar',
-                             'cv', 'getlin', 'getquad', 'getoff', 'energies', 'toqubo', 'toising', 'hvcv'])
+                             'cv', 'getlin', 'getquad', 'getoff', 'energies', 'toqubo', 'toising', 'hvcv', 'relabel', 'relabel'])
+        if kind == 'relabel':
+            # `relabel_variables` on the base object: one `(old, new)` step of the safe sub-mappings per model line
+            if not ref.vars:
+                continue
+            cur = list(ref.vars)
+            free = [l for l in LABELS if l not in cur]
+            if len(cur) >= 2 and (r.random() < .3 or not free):
+                a_, b_ = r.sample(cur, 2)
+                mp = {a_: b_, b_: a_}
+            else:
+                k_ = r.randint(1, min(2, len(cur), len(free)))
+                mp = dict(zip(r.sample(cur, k_), r.sample(free, k_)))
+            call = f'm.relabel_variables({mp!r})'
+            steps = [(a_, b_) for sub in dimod.utilities.iter_safe_relabels(mp, cur) for a_, b_ in sub.items()]
+            exec(call, R.ns); hist.append(call)
+            ren = lambda v: mp.get(v, v)  # noqa
+            P2 = GP()
+            for k_, c_ in ref.P.t.items():
+                P2.add(tuple(ren(v) for v in k_), c_)
+            ref.P = P2
+            ref.vars = [ren(v) for v in ref.vars]
+            ref.inter = {frozenset(ren(v) for v in e) for e in ref.inter}
+            pool = [ren(v) for v in pool]
+            site = 'BQM.relabel_variables'
+            ctx.tick(site + (' (swap)' if set(mp) == set(mp.values()) else ''))
+            ctx.case((site, tuple(hist)), nontrivial=True)
+            Pd = GP.of_model(m)
+            if Pd.nz() != ref.P.nz() or set(m.variables) != set(ref.vars):
+                ctx.fail('property', site, 'in a history with views and conversions', f'after {call}: data holds {Pd.nz()}, expected {ref.P.nz()}',
+                         repro=repro(expected_state_src()))
+                return
+            for j_, (a_, b_) in enumerate(steps):
+                lines.append(f'lb {ref.vt} relabel {lab(a_)} {lab(b_)}')
+                expects.append('ok ' + state_line(m) if j_ == len(steps) - 1 else None)
+                metas.append((site, 'one (old, new) step'))
+            continue
         if kind == 'hvcv':
             # re-type the held view object itself: from now on it reads/writes as a view of `target`
             target = r.choice(['SPIN', 'BINARY'])
@@ -311,6 +389,24 @@ def case_view_history(ctx, r, B):
                 ctx.fail('property', site, ('held view of equal vartype' if o == 'hv' and not through_view else 'through a view' if through_view else 'base'),
                          what, repro=repro(f'print({o}.{"to_qubo" if kind == "toqubo" else "to_ising"}())\nassert False, {what!r}\n'))
                 return
+            # (i) entry by entry against the view-read model: to_qubo / to_ising are the reads of the .binary / .spin view
+            icq = 'dict entries vs view reads'
+            if kind == 'toqubo':
+                lin_d = {v: Qd.get((v, v), 0) for v in ref.vars}
+                quad_d = {k_: b_ for k_, b_ in Qd.items() if k_[0] != k_[1]}
+                off_d = qoff
+            else:
+                lin_d, quad_d, off_d = hd, Jd, ioff
+            if set(lin_d) != set(ref.vars) or {frozenset(k_) for k_ in quad_d} != ref.inter or len(quad_d) != len(ref.inter):
+                ctx.fail('property', site, 'keys of the returned dicts', f'linear keys {sorted(map(repr, lin_d))}, interactions {sorted(map(repr, quad_d))}; '
+                         f'the model has variables {ref.vars} and interactions {sorted(map(sorted_pair, ref.inter))}',
+                         repro=repro(f'print({o}.{"to_qubo" if kind == "toqubo" else "to_ising"}())\nassert False\n'))
+                return
+            for v_ in ref.vars:
+                lines.append(f'lb {dom_vt} getlin {lab(v_)}'); expects.append('ok ' + rat(F(lin_d[v_]))); metas.append((site, icq))
+            for (a_, c_), b_ in quad_d.items():
+                lines.append(f'lb {dom_vt} getquad {lab(a_)} {lab(c_)}'); expects.append('ok ' + rat(F(b_))); metas.append((site, icq))
+            lines.append(f'lb {dom_vt} getoff'); expects.append('ok ' + rat(F(off_d))); metas.append((site, icq))
             continue
         err = None
         call = None
@@ -457,6 +553,10 @@ def case_view_history(ctx, r, B):
         lines.append(line)
         expects.append(('ok ' if raised is None else f'err {raised} ') + state_line(m))
         metas.append((site, ic))
+    if dtype == 'object':
+        # the dict model is in the same *insertion order* as `_adj` (what `pyBQM.change_vartype` and `relabel_variables` iterate over)
+        lines.append(f'lb {ref.vt} order'); expects.append('ok ' + raw_order(m)); metas.append(('pyBQM._adj insertion order', 'after a history'))
+        ctx.tick('dict order compared')
     B.items.append((lines, expects, metas, list(R.lines[4:]) + hist))
 
 
@@ -472,7 +572,7 @@ def flush_histories(ctx, B):
     for hl, he, hm, script in hs:
         for j in range(len(hl)):
             g = got[i + j] if i + j < len(got) else 'MISSING'
-            if g != he[j]:
+            if he[j] is not None and g != he[j]:
                 ctx.fail('correspondence', hm[j][0] + ' vs VartypeView/pyBQM model', hm[j][1],
                          f'line `{hl[j]}`: implementation `{he[j]}` model `{g}`', detail=dict(history=script, lines=hl[:j + 1]))
                 break
@@ -821,6 +921,125 @@ def case_poly_convert(ctx, r, B):
     B.add(f'polyto{other.lower()} {tok}', '', site, ic, 'to_binary/to_spin vs model', detail=dict(script=R.lines[4:]), on_mismatch=same)
 
 
+def terms_tok(items, idx):
+    """`i.j=b;…` with the variables of a term as sorted positions"""
+    return ';'.join('.'.join(str(i) for i in sorted(idx[v] for v in t)) + '=' + rat(F(b)) for t, b in items) or '-'
+
+
+def parse_terms(g):
+    d = {}
+    if g != '-':
+        for e in g.split(';'):
+            k, b = e.split('=')
+            d[tuple(int(x) for x in k.split('.')) if k else ()] = Fraction(b)
+    return d
+
+
+def case_poly_h(ctx, r, B):
+    """BinaryPolynomial.to_hubo / to_hising (either vartype) and from_hubo / from_hising: dicts + offset carry the energies"""
+    R = Recipe()
+    vt = r.choice(['SPIN', 'BINARY'])
+    n = r.choice([1, 2, 3, 4, 5])
+    labels = r.sample(LABELS, n)
+    idx = {l: i for i, l in enumerate(labels)}
+    terms = {}
+    for _ in range(r.choice([1, 2, 3, 5])):
+        t = tuple(r.sample(labels, min(r.choice([0, 1, 1, 2, 2, 3, 4]), n)))
+        if not any(set(t) == set(k) for k in terms):
+            terms[t] = q8(r)
+    which = r.choice(['to_hubo', 'to_hising', 'from_hubo', 'from_hising'])
+    site = 'BinaryPolynomial.' + which
+    ctx.tick(site)
+
+    def ev_terms(d, x):
+        e = Fraction(0)
+        for t, b in d.items():
+            pr = F(b)
+            for v in t:
+                pr *= x[v]
+            e += pr
+        return e
+
+    if which in ('to_hubo', 'to_hising'):
+        R.do(f'p = BinaryPolynomial({terms!r}, {vt!r})')
+        p = R['p']
+        P = GP({tuple(t): b for t, b in p.items()})
+        ic = f'{vt} polynomial, degree {p.degree if len(p) else 0}' + ('; constant term' if () in p else '')
+        ctx.case((site, tuple(R.lines[4:])), nontrivial=bool(len(p)))
+        if which == 'to_hubo':
+            R.do('H, off = p.to_hubo()')
+            H, off = R['H'], R['off']
+            tgt, conv = 'BINARY', (lambda a: a if vt == 'BINARY' else (a + 1) // 2)
+            got = lambda x: F(off) + ev_terms(H, x)  # noqa
+            check = 'F(off) + sum(F(b) * __import__("math").prod(new[v] for v in t) for t, b in H.items())'
+        else:
+            R.do('h, J, off = p.to_hising()')
+            h, J, off = R['h'], R['J'], R['off']
+            tgt, conv = 'SPIN', (lambda a: a if vt == 'SPIN' else 2 * a - 1)
+            got = lambda x: F(off) + sum(F(b) * x[v] for v, b in h.items()) + ev_terms(J, x)  # noqa
+            check = ('F(off) + sum(F(b) * new[v] for v, b in h.items()) + '
+                     'sum(F(b) * __import__("math").prod(new[v] for v in t) for t, b in J.items())')
+        conv_src = 'a' if tgt == vt else ('(a + 1) // 2' if tgt == 'BINARY' else '2 * a - 1')
+        repro = R.script(textwrap.dedent(f'''
+            import itertools
+            labels = {labels!r}
+            for vals in itertools.product({domain(vt)!r}, repeat=len(labels)):
+                old = dict(zip(labels, vals)); new = {{v: {conv_src} for v, a in old.items()}}
+                assert poly_sum(p, old) == {check}, old
+            '''))
+        for old in all_samples(labels, vt):
+            new = {v: conv(a) for v, a in old.items()}
+            if P.eval(old) != got(new):
+                ctx.fail('property', site, ic, f'at {old}: polynomial {P.eval(old)}, returned dicts + offset {got(new)}', repro=repro)
+                return
+        ptok = terms_tok(p.items(), idx)
+        if which == 'to_hubo':
+            exp = ({tuple(sorted(idx[v] for v in t)): F(b) for t, b in H.items()}, F(off))
+            B.add(f'polytohubo {vt} {ptok}', '', site, ic, 'to_hubo vs model', detail=dict(script=R.lines[4:]),
+                  on_mismatch=lambda g, exp=exp: (parse_terms(g.split(' ')[0]), Fraction(g.split(' ')[1])) == exp)
+        else:
+            exp = ({(idx[v],): F(b) for v, b in h.items()}, {tuple(sorted(idx[v] for v in t)): F(b) for t, b in J.items()}, F(off))
+            B.add(f'polytohising {vt} {ptok}', '', site, ic, 'to_hising vs model', detail=dict(script=R.lines[4:]),
+                  on_mismatch=lambda g, exp=exp: (parse_terms(g.split(' ')[0]), parse_terms(g.split(' ')[1]), Fraction(g.split(' ')[2])) == exp)
+        return
+    off = None if r.random() < .3 else q8(r)
+    if which == 'from_hubo':
+        R.do(f'p = BinaryPolynomial.from_hubo({terms!r}' + ('' if off is None else f', {off!r}') + ')')
+        src = dict(terms)
+        dvt = 'BINARY'
+        line = f'polyfromhubo {terms_tok(terms.items(), idx)} {"~" if off is None else rat(F(off))}'
+        ic = ('offset given' if off is not None else 'no offset') + ('; constant term in H' if () in terms else '')
+    else:
+        hh = {t[0]: b for t, b in terms.items() if len(t) == 1}
+        JJ = {t: b for t, b in terms.items() if len(t) >= 2}
+        R.do(f'p = BinaryPolynomial.from_hising({hh!r}, {JJ!r}' + ('' if off is None else f', {off!r}') + ')')
+        src = {**{(v,): b for v, b in hh.items()}, **JJ}
+        dvt = 'SPIN'
+        line = (f'polyfromhising {terms_tok([((v,), b) for v, b in hh.items()], idx)} {terms_tok(JJ.items(), idx)} '
+                f'{"~" if off is None else rat(F(off))}')
+        ic = 'offset given' if off is not None else 'no offset'
+    p = R['p']
+    ctx.case((site, tuple(R.lines[4:])), nontrivial=bool(src))
+    repro = R.script(textwrap.dedent(f'''
+        import itertools, math
+        labels = {labels!r}; src = {src!r}; off = {0 if off is None else off!r}
+        assert p.vartype.name == {dvt!r}
+        for vals in itertools.product({domain(dvt)!r}, repeat=len(labels)):
+            x = dict(zip(labels, vals))
+            assert poly_sum(p, x) == F(off) + sum(F(b) * math.prod(x[v] for v in t) for t, b in src.items()), x
+        '''))
+    if p.vartype.name != dvt:
+        ctx.fail('property', site, ic, f'vartype {p.vartype.name}', repro=repro)
+        return
+    G = GP({tuple(t): b for t, b in p.items()})
+    for x in all_samples(labels, dvt):
+        if G.eval(x) != F(0 if off is None else off) + ev_terms(src, x):
+            ctx.fail('property', site, ic, f'at {x}: polynomial {G.eval(x)}, dicts + offset {F(0 if off is None else off) + ev_terms(src, x)}', repro=repro)
+            return
+    exp = {tuple(sorted(idx[v] for v in t)): F(b) for t, b in p.items()}
+    B.add(line, '', site, ic, which + ' vs model', detail=dict(script=R.lines[4:]), on_mismatch=lambda g, exp=exp: parse_terms(g) == exp)
+
+
 def case_ising_qubo(ctx, r, B):
     n = r.choice([1, 2, 3, 4])
     labels = r.sample(LABELS, n)
@@ -1079,10 +1298,12 @@ def run(ctx):
                 'change_vartype, each compared with substitute-edit-substitute back; a case = one conversion or one history step; '
                 'non-trivial = the model has variables / the step went through a view of the other vartype or changed the state')
     for i in range(n):
-        kind = r.choice(['bqm', 'bqm', 'hist', 'hist', 'hist', 'qm', 'cqm', 'cqm', 'poly', 'dicts', 'ss', 'ss', 'fromdicts'])
+        kind = r.choice(['bqm', 'bqmhist', 'bqmhist', 'hist', 'hist', 'hist', 'qm', 'cqm', 'cqm', 'poly', 'polyh', 'dicts', 'ss', 'ss', 'fromdicts'])
         ctx.tick('kind:' + kind)
         if kind == 'bqm':
             case_bqm_convert(ctx, r, B)
+        elif kind == 'bqmhist':
+            case_history_convert(ctx, r, B)
         elif kind == 'hist':
             case_view_history(ctx, r, B)
         elif kind == 'qm':
@@ -1091,6 +1312,8 @@ def run(ctx):
             case_cqm_change(ctx, r, B)
         elif kind == 'poly':
             case_poly_convert(ctx, r, B)
+        elif kind == 'polyh':
+            case_poly_h(ctx, r, B)
         elif kind == 'dicts':
             case_ising_qubo(ctx, r, B)
         elif kind == 'fromdicts':
